@@ -421,6 +421,28 @@ fn c05(g: &mut Gen) {
             encode_case(g, "enc", key, false, None);
         }
     }
+    // routing tables that list the two parties themselves (an entry behind the sender's address, one behind the
+    // destination's, single endpoints or bridges with real EIDs) among others: the transport header still names the
+    // destination the caller gave and the sender's own address
+    let reps = g.n(80, 3000);
+    for _ in 0..reps {
+        let cfg = gen_cfg(&mut g.rng);
+        g.case("routing-parties", &cfg, |s, r| {
+            if r.chance(1, 3) { let (h, e) = (r.chance(1, 2), 8 + r.below(0xF0) as u8); s.op(Op::SetEid(h, e)); }
+            let (own, er, es) = crate::exec::hint();
+            let dest = r.addr();
+            let n = 2 + r.below(6) as usize;
+            let mut lists: Vec<Vec<u8>> = (0..n).map(|_| r.bytes(4)).collect();
+            let (i, j) = { let i = r.below(n as u64) as usize; let mut j = r.below(n as u64) as usize; if j == i { j = (i + 1) % n; } (i, j) };
+            let x1 = 8 + r.below(0xF0) as u8; let e1 = r.pick(&[x1, x1, er, es]); let e2 = 8 + r.below(0xF0) as u8;
+            let (t1, t2) = (r.pick(&[0u8, 2]), r.pick(&[2u8, 2, 0]));
+            lists[i] = vec![t1, 1, e1, own];
+            lists[j] = vec![t2, 1, e2, dest];
+            let c = Call { req: true, id: 9, nums: vec![dest as u32], lists };
+            let buf = buf_for(r, &c);
+            s.op(enc_op(&c, buf));
+        });
+    }
     // the transport header helper on (source, destination) pairs: exhaustive in thorough
     let cfg = simple_cfg(0);
     for src in 0..256u32 {
@@ -954,6 +976,17 @@ fn c09(g: &mut Gen) {
 // ------------------------------------------------------------------------------------------------ C10
 fn c10(g: &mut Gen) {
     list_size_cases(g);
+    // well-formed vendor messages carrying each configured vendor ID, after the context was asked for one of its sets
+    {
+        let reps = g.n(25, 800);
+        for _ in 0..reps {
+            let mut cfg = gen_cfg(&mut g.rng);
+            let nv = 2 + g.rng.below(5) as usize;
+            cfg.vendor_ids = (0..nv).map(|_| ((g.rng.below(2)) as u8, g.rng.c32(), g.rng.c16())).collect();
+            let sets = cfg.vendor_ids.clone();
+            g.case("config-echo", &cfg, |s, r| { config_echo_valid(s, r, &sets); });
+        }
+    }
     let full = g.thorough;
     let mut r = g.rng.fork();
     let mut grid: Vec<(String, Vec<u8>)> = Vec::new();
@@ -1039,6 +1072,28 @@ fn c10(g: &mut Gen) {
 
 // ------------------------------------------------------------------------------------------------ C17
 fn c17(g: &mut Gen) {
+    // a buffer holding a valid non-final fragment followed by (the header of) its continuation, as a controller that
+    // coalesces block writes hands it over: the probe still answers for the first packet only
+    let reps = g.n(20, 600);
+    for _ in 0..reps {
+        let cfg = gen_cfg(&mut g.rng);
+        g.case("fragments", &cfg, |s, r| {
+            let (dst, src, de, se) = (r.below(128) as u8, r.below(128) as u8, r.byte(), r.byte());
+            let ty = r.pick(&[0x7Eu8, 0x7F, 0x05, 0x06, 0x00]);
+            let (to, tag) = (r.below(2) as u8, r.below(8) as u8);
+            let seq = r.below(4) as u8;
+            let k = 1 + r.below(12) as usize; let body = r.bytes(k);
+            let first = build_packet(dst, src, 1, de, se, 0x80 | (seq << 4) | (to << 3) | tag, ty, &body);          // SOM 1, EOM 0
+            let k2 = r.below(8) as usize; let body2 = r.bytes(k2);
+            let eom = r.below(2) as u8;
+            let second = build_packet(dst, src, 1, de, se, (eom << 6) | (((seq + 1) & 3) << 4) | (to << 3) | tag, ty, &body2);   // SOM 0, next sequence number
+            s.op(Op::GetLength(first.clone()));
+            for cut in [3usize, 8, 9, second.len()] {
+                let mut q = first.clone(); q.extend(&second[..cut.min(second.len())]);
+                s.op(Op::GetLength(q));
+            }
+        });
+    }
     let cfg = gen_cfg(&mut g.rng);
     // lengths 0..2
     g.case("short", &cfg, |s, r| {
@@ -1194,6 +1249,17 @@ fn list_size_cases(g: &mut Gen) {
 // ------------------------------------------------------------------------------------------------ C11
 fn c11(g: &mut Gen) {
     list_size_cases(g);
+    // well-formed vendor messages carrying each configured vendor ID, after the context was asked for one of its sets
+    {
+        let reps = g.n(25, 800);
+        for _ in 0..reps {
+            let mut cfg = gen_cfg(&mut g.rng);
+            let nv = 2 + g.rng.below(5) as usize;
+            cfg.vendor_ids = (0..nv).map(|_| ((g.rng.below(2)) as u8, g.rng.c32(), g.rng.c16())).collect();
+            let sets = cfg.vendor_ids.clone();
+            g.case("config-echo", &cfg, |s, r| { config_echo_valid(s, r, &sets); });
+        }
+    }
     let full = g.thorough;
     let mut r = g.rng.fork();
     let mut grid: Vec<(String, Vec<u8>)> = Vec::new();
@@ -1394,6 +1460,27 @@ fn conversation(s: &mut Session, r: &mut Rng, id: u32) {
         let b = pbuf(r, 64, 39);
         if let Obs::ProcOk(_, _, _, Some(m), rb) = s.op(Op::Process(out[..n].to_vec(), b)) {
             if m <= rb.len() { s.op(Op::Decode(rb[..m].to_vec())); }
+        }
+    }
+}
+
+/// after the context was asked for vendor set k: well-formed vendor-defined messages (valid PEC) whose vendor ID is that of
+/// each configured set in turn (those before and after k), in the matching and in the other format, decoded and processed
+fn config_echo_valid(s: &mut Session, r: &mut Rng, sets: &[(u8, u32, u16)]) {
+    if sets.is_empty() { return; }
+    let k = r.below(sets.len() as u64) as usize;
+    let q = request(r.below(128) as u8, 0, 6, &[k as u8], r); let b = pbuf(r, 64, 0); s.op(Op::Process(q, b));
+    for (fmt, data, num) in sets.iter() {
+        let d = data.to_be_bytes(); let nmb = num.to_be_bytes();
+        for ty in [0x7Eu8, 0x7F] {
+            let mut body: Vec<u8> = if ty == 0x7E { d[2..].to_vec() } else { d.to_vec() };
+            if r.chance(1, 2) { body.extend(&nmb); }
+            let kx = r.below(5) as usize; body.extend(r.bytes(kx));
+            let _ = fmt;
+            let src = r.below(128) as u8;
+            let p = build_packet(r.below(128) as u8, src, 1, r.byte(), src, r.pick(&[0xC8u8, 0xC0, 0xC8]), ty, &body);
+            s.op(Op::Decode(p.clone()));
+            let b = pbuf(r, 64, 0); s.op(Op::Process(p, b));
         }
     }
 }
@@ -1924,6 +2011,15 @@ fn c18(g: &mut Gen) {
                 if thorough { for i in 0..32 { for j in 0..i { let w = (1u32 << i) | (1u32 << j); raws.push(w.to_be_bytes().to_vec()); } } }
                 let k = g.n(200, 20_000);
                 for _ in 0..k { raws.push(g.rng.bytes(4)); }
+                // raws whose bytes are related to each other or to the protocol's own constants (a header as it appears on
+                // the wire: address, 0x0F, count, address | 1; copies, complements, shifts of one byte)
+                let k = g.n(300, 20_000);
+                for _ in 0..k {
+                    let b0 = g.rng.byte();
+                    let var = |r: &mut Rng, b: u8| -> u8 { match r.below(10) { 0 => b, 1 => b | 1, 2 => b & 0xFE, 3 => b ^ 1, 4 => b >> 1, 5 => b << 1, 6 => !b, 7 => 0x0F, 8 => r.pick(&[0x01u8, 0xC8, 0x00, 0xFF]), _ => r.byte() } };
+                    let raw = vec![b0, var(&mut g.rng, b0), var(&mut g.rng, b0), var(&mut g.rng, b0)];
+                    raws.push(raw);
+                }
             }
         }
         let maxv: u64 = match fld { 27 => 0xFFFF, 28 => 0xFFFF_FFFF, _ => 0xFF };
